@@ -22,6 +22,12 @@ def corrupt(e):
 
 
 def tally(tf):
+    for hist in json.load(open(tf + ".meta.json")):
+        for blk in hist:
+            for x in blk.get("txs") or []:
+                if x["req"].get("class") == "fork:before":
+                    k = "refused before the fork" if not (x.get("deliver") and x["deliver"]["code"] == 0) else "ACCEPTED before the fork"
+                    SEEN[k] = SEEN.get(k, 0) + 1
     for ln in open(tf):
         e = json.loads(ln)
         for x in e["txs"]:
@@ -34,6 +40,8 @@ def tally(tf):
             SEEN[k] = SEEN.get(k, 0) + 1
             if x["probed"] >= 0:
                 SEEN["balance read through the EVM"] = SEEN.get("balance read through the EVM", 0) + 1
+            if x["k"] == "OLVM" and e.get("fork", 1) > 1 and e["h"] == e["fork"]:
+                SEEN["executed in the fork block"] = SEEN.get("executed in the fork block", 0) + 1
             if x["k"] == "OLVM" and x["price"] > 1:
                 SEEN["gas price above 1"] = SEEN.get("gas price above 1", 0) + 1
 
@@ -44,12 +52,12 @@ def run(ctx, replay):
                     cfg_text=vlib.cfg_text("MSpec", dict(C, Deviations={"keepGasOnFailure"}), INVS, PROPS))
         if d["ok"] or "Invariant InvConserved is violated" not in d["text"]:
             raise vlib.ToolFailure("vacuity control failed: deviation keepGasOnFailure not caught by InvConserved")
-    subsys.run(ctx, "C17", replay, "Olvm", MC, ["olvm"], TRACE, corrupt,
+    subsys.run(ctx, "C17", replay, "Olvm", MC, ["olvm", "olvmfork"], TRACE, corrupt,
                "seeded histories on a genesis with the EVM enabled: three EVM accounts deploy seven hand-assembled programs (counter, forwarder, balance probe, reverting, looping, self-destructing, refund-earning toggle; also creation code that reverts), call them with and without value, move value between EVM accounts, native accounts, fresh addresses and contracts, natives pay EVM accounts and contracts; deviations delivered with and without the mempool check: sequence numbers too low and with gaps, unpayable value or gas, gas below the intrinsic cost, wrong chain id, another account's signature, wrong memo, higher gas prices; one evaluation = one block re-computed by TLC (who may execute, outcome per program, gas used times price to the fee pool, value to where the program sends it, sequence numbers, code set) and compared exactly with all balances, sequence numbers, coded addresses and the fee pool",
                n_blocks=(40, 16) if ctx.quick() else (500, 22), extra_mc=[] if ctx.quick() else [MCBIG], tally=tally)
     if not replay:
         need = ["native transfer", "creation ok", "creation failed", "call/transfer ok", "call/transfer failed", "call/transfer failed (all gas used)",
-                "balance read through the EVM", "gas price above 1"]
+                "balance read through the EVM", "gas price above 1", "executed in the fork block", "refused before the fork"]
         miss = [k for k in need if not SEEN.get(k)]
         if miss:
             raise vlib.ToolFailure("workload too poor: never observed: %s (seen %s)" % (miss, SEEN))
